@@ -245,3 +245,7 @@ var tier int
 
 // SetTier is used by the native runner.
 func SetTier(t int) { tier = t }
+
+// GlobalWrites is the number of stores to package-level state of the library
+// observed so far (always 0 natively; tracked by the engine).
+func GlobalWrites() int { return 0 }
